@@ -29,7 +29,7 @@ def run(ctx):
     n_exp = 0
     for q in ('GraphicalModel.project', 'GraphicalModel.krondot', 'GraphicalModel.calculate_many_marginals',
               'GraphicalModel.datavector', 'variable_elimination_logspace', 'variable_elimination', 'GraphicalModel.belief_propagation'):
-        fi = repo.func(GM, q)
+        fi = repo.nfunc(GM, q)
         an, n = LR.L1(ctx, fi)
         n_exp += n
         if q == 'variable_elimination_logspace':
@@ -38,10 +38,10 @@ def run(ctx):
                    construct='normalisation in variable_elimination_logspace')
             check_ve(ctx, fi)
     ctx.floor('exp sites on query paths', n_exp, 5)
-    check_project(ctx, repo.func(GM, 'GraphicalModel.project'))
-    check_many(ctx, repo.func(GM, 'GraphicalModel.calculate_many_marginals'))
-    check_datavector(ctx, repo.func(GM, 'GraphicalModel.datavector'))
-    check_krondot(ctx, repo.func(GM, 'GraphicalModel.krondot'))
+    check_project(ctx, repo.nfunc(GM, 'GraphicalModel.project'))
+    check_many(ctx, repo.nfunc(GM, 'GraphicalModel.calculate_many_marginals'))
+    check_datavector(ctx, repo.nfunc(GM, 'GraphicalModel.datavector'))
+    check_krondot(ctx, repo.nfunc(GM, 'GraphicalModel.krondot'))
     check_cache(ctx)
 
 
@@ -159,7 +159,7 @@ def check_krondot(ctx, fi):
 
 def check_cache(ctx):
     n = 0
-    for name, fi in ctx.repo.methods(GM, 'GraphicalModel').items():
+    for name, fi in ctx.repo.nmethods(GM, 'GraphicalModel').items():
         for s in walk_shallow(fi.node):
             if isinstance(s, ast.Assign) and any(U(t) == 'self.marginals' for t in s.targets):
                 n += 1
